@@ -62,6 +62,11 @@ pub struct Features {
     /// Focus profile: vicinity clustering with an explicit filter and wide thresholds on few locations, together with user
     /// relations (rare state: a job of a relation has close neighbours which are clustered).
     pub cluster_relation_focus: bool,
+    /// Focus profile (only where `allowed` asks for it): 30..44 jobs, many of them pickup-and-delivery, on one vehicle type
+    /// with one or two vehicles of ample capacity and a long shift, hardly any time window - tours of more than 32 legs,
+    /// where leg selection switches from the exhaustive scan to sampled search (a code path the small problems of the
+    /// quick tier never enter).
+    pub long_tour_focus: bool,
 }
 
 impl Features {
@@ -74,7 +79,7 @@ impl Features {
             multi_job, multi_dim, multi_tw, multi_place, tags, skills, groups, compat, order, value, limits, tour_size,
             multi_shift, open_end, latest_departure, unreachable, multi_profile, scale, reloads, shared_reload,
             opt_breaks, req_breaks, relations, nonmetric, asymmetric, objectives, same_location, tight, many_vehicles,
-            replacement, service, pickups, unreachable_random, reload_focus, shift_focus, clustering, recharges, time_dependent, tie_focus, cluster_relation_focus
+            replacement, service, pickups, unreachable_random, reload_focus, shift_focus, clustering, recharges, time_dependent, tie_focus, cluster_relation_focus, long_tour_focus
         );
         v
     }
@@ -131,7 +136,19 @@ impl Features {
             f.tour_size = false;
             f.many_vehicles = allowed.many_vehicles;
         }
-        if !f.reload_focus && allowed.multi_shift && allowed.multi_job && p.chance(0.06) {
+        if allowed.long_tour_focus && !f.reload_focus && !f.cluster_relation_focus && !f.tie_focus && p.chance(0.03) {
+            f.long_tour_focus = true;
+            f.multi_job = allowed.multi_job;
+            f.pickups = allowed.pickups;
+            for off in [
+                &mut f.tight, &mut f.limits, &mut f.tour_size, &mut f.many_vehicles, &mut f.multi_shift, &mut f.skills, &mut f.groups,
+                &mut f.compat, &mut f.clustering, &mut f.time_dependent, &mut f.req_breaks, &mut f.relations, &mut f.nonmetric,
+                &mut f.unreachable, &mut f.unreachable_random, &mut f.same_location, &mut f.multi_tw, &mut f.recharges,
+            ] {
+                *off = false;
+            }
+        }
+        if !f.reload_focus && !f.long_tour_focus && allowed.multi_shift && allowed.multi_job && p.chance(0.06) {
             f.shift_focus = true;
             f.multi_shift = true;
             f.multi_job = true;
@@ -158,6 +175,7 @@ impl Features {
             time_dependent: false,
             tie_focus: false,
             cluster_relation_focus: false,
+            long_tour_focus: false,
         }
     }
 }
@@ -187,7 +205,7 @@ struct Ctx<'a> {
 
 impl Ctx<'_> {
     fn windows(&mut self, max: usize) -> Option<Value> {
-        if self.f.tie_focus && self.p.chance(0.8) {
+        if (self.f.tie_focus && self.p.chance(0.8)) || (self.f.long_tour_focus && self.p.chance(0.9)) {
             return None;
         }
         if !self.p.chance(if self.f.tight { 0.8 } else { 0.45 }) {
@@ -271,8 +289,10 @@ pub fn generate(seed: u64, limits: &GenLimits, allowed: &Features) -> GenProblem
     let f = Features::random(&mut p, allowed);
     let n_jobs = if p.chance(0.1) { p.usize(1, 3.min(limits.max_jobs)) } else { p.usize(1, limits.max_jobs) };
     let n_jobs = if f.reload_focus || f.shift_focus { limits.max_jobs.max(n_jobs) } else { n_jobs };
+    let n_jobs = if f.long_tour_focus { p.usize(30, 44) } else { n_jobs };
     let dims = if f.multi_dim { p.usize(2, 3) } else { 1 };
     let horizon: i64 = *p.pick(&[8_000, 20_000, 40_000]);
+    let horizon = if f.long_tour_focus { 40_000 } else { horizon };
     let n_loc = if f.tie_focus { p.usize(2, 3) } else if f.same_location { p.usize(2, (n_jobs / 2).max(2) + 1) } else { p.usize(2, 2 * n_jobs + 3) };
 
     let mut cx = Ctx { p: &mut p, f: &f, n_loc, dims, horizon };
@@ -291,7 +311,7 @@ pub fn generate(seed: u64, limits: &GenLimits, allowed: &Features) -> GenProblem
             let w = [
                 8,
                 if cx.f.pickups { 5 } else { 0 },
-                if cx.f.multi_job { 6 } else { 0 },
+                if cx.f.multi_job && cx.f.long_tour_focus { 14 } else if cx.f.multi_job { 6 } else { 0 },
                 if cx.f.replacement { 3 } else { 0 },
                 if cx.f.service { 3 } else { 0 },
                 if cx.f.multi_job && !cx.f.pd_only { 2 } else { 0 },
@@ -389,7 +409,7 @@ pub fn generate(seed: u64, limits: &GenLimits, allowed: &Features) -> GenProblem
     let n_profiles = if f.multi_profile { 2 } else { 1 };
     let profile_names: Vec<String> = (0..n_profiles).map(|i| format!("prof{i}")).collect();
     let n_types = cx.p.usize(1, limits.max_vehicle_types);
-    let n_types = if f.shift_focus { 1 } else { n_types };
+    let n_types = if f.shift_focus || f.long_tour_focus { 1 } else { n_types };
     let mut vehicles = vec![];
     let mut resources = vec![];
     let nested_ids = n_types >= 2 && cx.p.chance(0.12);
@@ -420,6 +440,7 @@ pub fn generate(seed: u64, limits: &GenLimits, allowed: &Features) -> GenProblem
         let mut t_start = cx.p.range(0, horizon / 8);
         for _s in 0..n_shifts {
             let len = cx.p.range(horizon / 3, horizon + horizon / 4);
+            let len = if f.long_tour_focus { 3 * horizon } else { len };
             let mut start = Map::new();
             start.insert("earliest".into(), json!(fmt_time(T0 + t_start)));
             let mut fixed_departure = false;
@@ -530,7 +551,7 @@ pub fn generate(seed: u64, limits: &GenLimits, allowed: &Features) -> GenProblem
             t_start += len + cx.p.range(0, horizon / 4);
         }
         let cap: Vec<i64> =
-            (0..dims).map(|_| if f.tight { cx.p.range(2, 8) } else { cx.p.range(4, 24) }).collect();
+            (0..dims).map(|_| if f.long_tour_focus { 200 } else if f.tight { cx.p.range(2, 8) } else { cx.p.range(4, 24) }).collect();
         let mut v = Map::new();
         v.insert("typeId".into(), json!(format!("type{t}")));
         v.insert("vehicleIds".into(), json!(ids));
